@@ -65,6 +65,17 @@ func NewParser() *Parser {
 	}
 }
 
+// recoverAsParseError turns a panic raised while compiling filename into a ParseError.
+// It must be deferred in every goroutine that runs compiler code.
+func recoverAsParseError(filename string, mod **sysl.Module, err *error) {
+	if r := recover(); r != nil {
+		if mod != nil {
+			*mod = nil
+		}
+		*err = syslutil.Exitf(ParseError, fmt.Sprintf("%s cannot be compiled: %v\n", filename, r))
+	}
+}
+
 func parseString(filename string, input antlr.CharStream) (tree parser.ISysl_fileContext, err error) {
 	defer func() {
 		// recover from panic if one occurred. Set err to nil otherwise.
@@ -217,7 +228,11 @@ func fileNameToIndex(filename string) retrievedListIndex {
 }
 
 // Parse parses a sysl definition from an retriever interface
-func (p *Parser) Parse(resource string, reader reader.Reader) (*sysl.Module, error) {
+func (p *Parser) Parse(resource string, reader reader.Reader) (mod *sysl.Module, err error) {
+	// The tree walks, linting and post-processing below assert on the shape of the parse tree
+	// with panics; a specification that trips one is reported as a parse error, not a crash.
+	defer recoverAsParseError(resource, &mod, &err)
+
 	listener := NewTreeShapeListener()
 	listener.lint()
 
@@ -279,7 +294,8 @@ func (p *Parser) parseSpecs(specs []srcInput, listener *TreeShapeListener) (*sys
 	for i := range specs {
 		v := &specs[i]
 		out := &syslInputs[i]
-		g.Go(func() error {
+		g.Go(func() (err error) {
+			defer recoverAsParseError(v.src.filename, nil, &err)
 			out.src = v.src
 
 			// Import Sysl Proto
@@ -289,7 +305,6 @@ func (p *Parser) parseSpecs(specs []srcInput, listener *TreeShapeListener) (*sys
 			}
 
 			fsinput := &fsFileStream{antlr.NewInputStream(v.input), v.src.filename}
-			var err error
 			out.str, err = importForeign(v.src, fsinput)
 			if err != nil {
 				return err
@@ -458,7 +473,8 @@ func (p *Parser) collectSpecs(
 	g := new(errgroup.Group)
 	for _, c := range children {
 		c := c
-		g.Go(func() error {
+		g.Go(func() (err error) {
+			defer recoverAsParseError(c.filename, nil, &err)
 			return p.collectSpecs(ctx, c, reader, retrieved, maxImportDepth, currentImportDepth+1)
 		})
 	}
